@@ -90,8 +90,8 @@ func read[EntityT entity.Interface](def Definition, wrapper func(e *Entity) Enti
 		return *new(EntityT), err
 	}
 
-	// Perform a breadth-first search to get a topological order of the DAG where we discover the
-	// parents commit and go back in time up to the chronological root
+	// Perform a breadth-first search to discover all the commits of the DAG, going back in time
+	// up to the chronological root
 
 	queue := make([]repository.Hash, 0, 32)
 	visited := make(map[repository.Hash]struct{})
@@ -121,8 +121,8 @@ func read[EntityT entity.Interface](def Definition, wrapper func(e *Entity) Enti
 		}
 	}
 
-	// Now, we can reverse this topological order and read the commits in an order where
-	// we are sure to have read all the chronological ancestors when we read a commit.
+	// The BFS order is not a topological order when the branches have different
+	// lengths, so the checks below must not depend on the order of traversal.
 
 	// Next step is to:
 	// 1) read the operationPacks
@@ -131,18 +131,7 @@ func read[EntityT entity.Interface](def Definition, wrapper func(e *Entity) Enti
 	oppMap := make(map[repository.Hash]*operationPack)
 	var opsCount int
 
-	for i := len(BFSOrder) - 1; i >= 0; i-- {
-		commit := BFSOrder[i]
-		isFirstCommit := i == len(BFSOrder)-1
-		isMerge := len(commit.Parents) > 1
-
-		// Verify DAG structure: single chronological root, so only the root
-		// can have no parents. Said otherwise, the DAG need to have exactly
-		// one leaf.
-		if !isFirstCommit && len(commit.Parents) == 0 {
-			return *new(EntityT), fmt.Errorf("multiple leafs in the entity DAG")
-		}
-
+	for _, commit := range BFSOrder {
 		opp, err := readOperationPack(def, repo, resolvers, commit)
 		if err != nil {
 			return *new(EntityT), err
@@ -153,20 +142,43 @@ func read[EntityT entity.Interface](def Definition, wrapper func(e *Entity) Enti
 			return *new(EntityT), err
 		}
 
+		oppMap[commit.Hash] = opp
+		opsCount += len(opp.Operations)
+	}
+
+	rootFound := false
+
+	for _, commit := range BFSOrder {
+		opp := oppMap[commit.Hash]
+		isRoot := len(commit.Parents) == 0
+		isMerge := len(commit.Parents) > 1
+
+		// Verify DAG structure: single chronological root, so only the root
+		// can have no parents. Said otherwise, the DAG need to have exactly
+		// one leaf.
+		if isRoot && rootFound {
+			return *new(EntityT), fmt.Errorf("multiple leafs in the entity DAG")
+		}
+
 		if isMerge && len(opp.Operations) > 0 {
 			return *new(EntityT), fmt.Errorf("merge commit cannot have operations")
 		}
 
 		// Check that the create lamport clock is set (not checked in Validate() as it's optional)
-		if isFirstCommit && opp.CreateTime <= 0 {
+		if isRoot && opp.CreateTime <= 0 {
 			return *new(EntityT), fmt.Errorf("creation lamport time not set")
+		}
+
+		if isRoot {
+			rootFound = true
 		}
 
 		// make sure that the lamport clocks causality match the DAG topology
 		for _, parentHash := range commit.Parents {
 			parentPack, ok := oppMap[parentHash]
 			if !ok {
-				panic("DFS failed")
+				// the BFS above visit every ancestor
+				return *new(EntityT), fmt.Errorf("missing parent commit %s", parentHash)
 			}
 
 			if parentPack.EditTime >= opp.EditTime {
@@ -181,9 +193,6 @@ func read[EntityT entity.Interface](def Definition, wrapper func(e *Entity) Enti
 				return *new(EntityT), fmt.Errorf("lamport clock jumping too far in the future, likely an attack")
 			}
 		}
-
-		oppMap[commit.Hash] = opp
-		opsCount += len(opp.Operations)
 	}
 
 	// The clocks are fine, we witness them
